@@ -14,11 +14,11 @@ PERSISTENT = {"val", "val2", "map", "omap"}
 # ----------------------------------------------------------------------------- generation
 
 def gen_scripts(wd, n, maxlen, seed, nremotes=2, caps=(16, 64, 4096), vlanes=("val",), mlanes=(), slanes=(),
-                usecmd=False, keys=(1, 2), faults=(), tag="env"):
+                usecmd=False, keys=(1, 2), faults=(), tag="env", burst=False):
     """n behaviours of AgentEnv.tla by TLC simulation (seeded)."""
     consts = {"NRemotes": nremotes, "MaxLen": maxlen, "Caps": set(caps), "VLanes": set(vlanes),
               "MLanes": set(mlanes), "SLanes": set(slanes), "UseCmd": usecmd, "Keys": set(keys),
-              "Faults": set(faults)}
+              "Faults": set(faults), "Burst": burst}
     c = core.cfg(constants=consts)
     r = core.run_tlc("AgentEnv", c, os.path.join(wd, tag), workers=1, simulate="num=%d" % n,
                      extra=["-depth", str(2 * maxlen + 4), "-seed", str(seed)], coverage=False, timeout=600)
@@ -286,4 +286,69 @@ def proj_link(log):
             out.append({"e": "end", "clean": clean})
         elif k == "killed":
             out.append({"e": "end", "clean": False})
+    return out
+
+
+# ----------------------------------------------------------------------------- C02 / C03 map projection
+
+_TD = re.compile(r"^@(take|drop)\((\d+)\)$")
+
+
+def proj_map(log, mlanes, keys=(1, 2, 3)):
+    """events of Trace_MapReplica.tla"""
+    out = [{"e": "reset"}]
+    first_start = True
+    unsettled = False
+    for e in log:
+        k = e["e"]
+        if k == "settled":
+            unsettled = False
+            continue
+        if k == "req" and e.get("ns"):
+            unsettled = True
+        if k == "start":
+            if not first_start:
+                maps = {}
+                for l in mlanes:
+                    d = dict((kk, vv) for kk, vv in e.get(l, []))
+                    maps[l] = {str(kk): d.get(kk, -1) for kk in keys}
+                # JSON object keys are strings; the spec indexes by integer keys -> give a sequence indexed 1..n
+                out.append({"e": "init", "maps": {l: [d2 for d2 in (maps[l][str(kk)] for kk in keys)] for l in mlanes}})
+            first_start = False
+        elif k == "lane" and e["lane"] in mlanes:
+            o = {"e": "op", "lane": e["lane"], "m": e["op"]}
+            if e["op"] in ("upd", "rem"):
+                o["k"] = e["k"]
+            if e["op"] == "upd":
+                o["v"] = e["v"]
+            out.append(o)
+        elif k == "req" and e["lane"] in mlanes:
+            if e["op"] in ("link", "sync", "unlink"):
+                out.append({"e": "req", "r": e["r"], "lane": e["lane"], "op": e["op"]})
+            else:
+                m = _TD.match(e.get("body", "").strip())
+                if m and not unsettled:
+                    out.append({"e": "td", "lane": e["lane"], "m": m.group(1), "n": int(m.group(2))})
+                else:
+                    out.append({"e": "mark"})
+        elif k == "req":
+            out.append({"e": "mark"})
+        elif k == "frame" and e["lane"] in mlanes:
+            f = {"e": "frame", "r": e["r"], "lane": e["lane"], "kind": e["kind"]}
+            if e["kind"] == "event":
+                op = parse_map_op(e.get("body"))
+                if op is None:
+                    f["bad"] = True
+                    f["m"] = "bad"
+                else:
+                    f["m"] = op["op"]
+                    if "k" in op:
+                        f["k"] = op["k"]
+                    if "v" in op:
+                        f["v"] = op["v"]
+            out.append(f)
+        elif k in ("drop", "dropread", "eof", "frame_error"):
+            out.append({"e": "gone", "r": e["r"]})
+        elif k == "quiescent":
+            out.append({"e": "quiescent", "drained": e["drained"]})
     return out
